@@ -455,16 +455,16 @@ Proof.
   intros R Hf. pose proof (absf_in (kctr s)) as Hin.
   destruct (e_faults E (kctr s)) as [|e|]; cbn [absf] in Hin.
   - exists a, ARNorm, v. split; [apply in_flat_map; exists AFOk; split; [exact Hin|left; reflexivity]|].
-    right. cbn. repeat split. exact R.
+    right; cbn [fst snd]; split; [exact R|split; [reflexivity|intros _; reflexivity]].
   - destruct sw.
     + exists (f2 a), ARNorm, false. split.
       * apply in_flat_map. exists (if is_perm e then AFPerm else AFOther). split; [exact Hin|]. destruct (is_perm e); left; reflexivity.
-      * right. cbn. repeat split. apply Hf. exact R.
+      * right; cbn [fst snd]; split; [apply Hf; exact R|split; [reflexivity|intros _; reflexivity]].
     + exists a, (ARExn (is_perm e)), false. split.
       * apply in_flat_map. exists (if is_perm e then AFPerm else AFOther). split; [exact Hin|]. destruct (is_perm e); left; reflexivity.
-      * right. cbn. repeat split; [exact R|discriminate].
+      * right; cbn [fst snd]; split; [exact R|split; [reflexivity|discriminate]].
   - exists a, ARCrash, false. split; [apply in_flat_map; exists AFCrash; split; [exact Hin|left; reflexivity]|].
-    right. cbn. repeat split; [exact R|discriminate].
+    right; cbn [fst snd]; split; [exact R|split; [reflexivity|discriminate]].
 Qed.
 
 Lemma Rc_ulfail s a : Rc s a -> Rc (st_ulfail s) (up_ulfail a).
@@ -498,10 +498,10 @@ Proof.
   - (* CIsSymlink *)
     pose proof (stat_like_sound (tag_is_symlink w) s a false false (fun x => x) (fun x => x) R (fun r => r)) as G.
     destruct (e_faults E (kctr s)); exact G.
-  - exists a, ARNorm, (x_base X). split; [left; reflexivity|]. right. cbn. repeat split; [exact R|]. intros _. apply (W7 WF).
-  - exists a, ARNorm, (a_existed a). split; [left; reflexivity|]. right. cbn. repeat split; [exact R|]. intros _.
+  - exists a, ARNorm, (x_base X). split; [left; reflexivity|]. right; cbn [fst snd]; split; [exact R|split; [reflexivity|]]. intros _. apply (W7 WF).
+  - exists a, ARNorm, (a_existed a). split; [left; reflexivity|]. right; cbn [fst snd]; split; [exact R|split; [reflexivity|]]. intros _.
     destruct R as [_ RVs]. unfold RV in RVs. intuition.
-  - exists a, ARNorm, (match a_om a with OmOld => true | OmNone => false end). split; [left; reflexivity|]. right. cbn. repeat split; [exact R|].
+  - exists a, ARNorm, (match a_om a with OmOld => true | OmNone => false end). split; [left; reflexivity|]. right; cbn [fst snd]; split; [exact R|split; [reflexivity|]].
     intros _. destruct R as [_ RVs]. unfold RV in RVs. destruct (a_om a).
     + assert (Hm : omode s = None) by intuition. rewrite Hm. reflexivity.
     + assert (Hm : exists d m, old = Some (File d m) /\ omode s = Some m) by intuition. destruct Hm as (d & m & _ & Hm). rewrite Hm. reflexivity.
@@ -509,24 +509,24 @@ Proof.
     exists a, ARNorm, (hash_ne H E (bl s)). split.
     + apply in_map_iff. exists (hash_ne H E (bl s)). split; [reflexivity|]. apply (hash_vals_sound _ _ (cont s)).
       destruct R as [_ RVs]. unfold RV in RVs. intuition.
-    + right. cbn. repeat split. exact R.
+    + right; cbn [fst snd]; split; [exact R|split; [reflexivity|intros _; reflexivity]].
   - (* CVerifyNe *)
     exists a, ARNorm, (hash_ne H E (ver s)). split.
     + apply in_map_iff. exists (hash_ne H E (ver s)). split; [reflexivity|]. apply (hash_vals_sound _ _ (cont s)).
       destruct R as [_ RVs]. unfold RV in RVs. intuition.
-    + right. cbn. repeat split. exact R.
+    + right; cbn [fst snd]; split; [exact R|split; [reflexivity|intros _; reflexivity]].
   - (* CPipeFail *)
-    exists a, ARNorm, (negb (a_cont a)). split; [left; reflexivity|]. right. cbn. repeat split; [exact R|]. intros _.
+    exists a, ARNorm, (negb (a_cont a)). split; [left; reflexivity|]. right; cbn [fst snd]; split; [exact R|split; [reflexivity|]]. intros _.
     destruct R as [_ RVs]. unfold RV in RVs. destruct (a_cont a).
     + assert (Hc : exists d, cont s = Some d) by intuition. destruct Hc as (d & Hc). rewrite Hc. reflexivity.
     + assert (Hc : cont s = None) by intuition. rewrite Hc. reflexivity.
-  - exists a, ARNorm, (x_dry X). split; [left; reflexivity|]. right. cbn. repeat split; [exact R|]. intros _. apply (W9 WF).
+  - exists a, ARNorm, (x_dry X). split; [left; reflexivity|]. right; cbn [fst snd]; split; [exact R|split; [reflexivity|]]. intros _. apply (W9 WF).
   - (* CNot *)
     destruct (IHc s a R Ht) as (a' & ar & b' & Hi & Hr).
     destruct (eval_cond H E c s) as [[s1 r1] v1]. cbn [fst snd] in *.
     exists a', ar, (negb b'). split.
     + apply in_map_iff. exists (a', ar, b'). split; [reflexivity|exact Hi].
-    + destruct Hr as [Hr|(R1 & Hr & Hb)]; [left; exact Hr|right]. cbn. repeat split; [exact R1|exact Hr|]. intro Hn. rewrite (Hb Hn). reflexivity.
+    + destruct Hr as [Hr|(R1 & Hr & Hb)]; [left; exact Hr|right]. cbn [fst snd]. split; [exact R1|split; [exact Hr|]]. intro Hn. rewrite (Hb Hn). reflexivity.
   - (* CAnd *)
     destruct (IHc1 s a R Ht) as (a1 & ar1 & b1 & Hi & Hr).
     destruct (eval_cond H E c1 s) as [[s1 r1] v1]. cbn [fst snd] in *.
@@ -543,13 +543,13 @@ Proof.
            ++ destruct (IHc2 s1 a1 R1 Ht1) as (a2 & ar2 & b2 & Hi2 & Hr2).
               exists a2, ar2, b2. split; [|exact Hr2]. apply in_flat_map. exists (a1, ARNorm, true). split; [exact Hi|exact Hi2].
         -- exists a1, ARNorm, false. split; [apply in_flat_map; exists (a1, ARNorm, false); split; [exact Hi|left; reflexivity]|].
-           right. cbn. repeat split. exact R1.
+           right; cbn [fst snd]; split; [exact R1|split; [reflexivity|intros _; reflexivity]].
       * exists a1, (ARExn (is_perm e)), false. split; [apply in_flat_map; exists (a1, ARExn (is_perm e), b1); split; [exact Hi|left; reflexivity]|].
-        right. cbn. repeat split; [exact R1|discriminate].
+        right; cbn [fst snd]; split; [exact R1|split; [reflexivity|discriminate]].
       * exists a1, (ARRet r), false. split; [apply in_flat_map; exists (a1, ARRet r, b1); split; [exact Hi|left; reflexivity]|].
-        right. cbn. repeat split; [exact R1|discriminate].
+        right; cbn [fst snd]; split; [exact R1|split; [reflexivity|discriminate]].
       * exists a1, ARCrash, false. split; [apply in_flat_map; exists (a1, ARCrash, b1); split; [exact Hi|left; reflexivity]|].
-        right. cbn. repeat split; [exact R1|discriminate].
+        right; cbn [fst snd]; split; [exact R1|split; [reflexivity|discriminate]].
 Qed.
 
 (* ---- validation loop ------------------------------------------------------------------------------------- *)
@@ -583,12 +583,13 @@ Qed.
 Lemma abs_res_norm r : abs_res r = ARNorm -> r = RNorm.
 Proof. destruct r; cbn; congruence. Qed.
 
-Lemma exec_sound p : forall cur s a, Rc s a ->
+Lemma exec_sound : forall p cur s a, Rc s a ->
   Sound (fst (exec H E p cur s)) (snd (exec H E p cur s)) (aexec X p (is_perm cur) a).
 Proof.
-  induction p; intros cur s a R; (destruct (a_top a) eqn:Ht;
-    [rewrite (aexec_top _ _ _ Ht); eapply Sound_of_top; [left; reflexivity|exact Ht]|]);
-    cbn [exec aexec]; rewrite Ht.
+  fix IH 1. intros p cur s a R.
+  destruct (a_top a) eqn:Ht;
+    [rewrite (aexec_top _ _ _ Ht); eapply Sound_of_top; [left; reflexivity|exact Ht]|].
+  destruct p; cbn [exec aexec]; rewrite Ht.
   - (* SSkip *) exists a, ARNorm. split; [left; reflexivity|right; split; [exact R|reflexivity]].
   - (* SOp *) apply exec_op_sound'. exact R.
   - (* SPure *)
@@ -602,15 +603,22 @@ Proof.
       assert (Hc0 : cont s = None) by (unfold RV in RVs; rewrite Epp in RVs; intuition).
       assert (Hbl : bl s = den (a_bl a) (cont s)) by (unfold RV in RVs; intuition).
       assert (Hvr : ver s = den (a_ver a) (cont s)) by (unfold RV in RVs; intuition).
+      assert (Hrest : tmpb s = a_tmpb a /\ buf s = a_buf a /\ existed s = a_existed a /\ ulfail s = a_ulfail a /\
+                      match a_om a with OmNone => omode s = None | OmOld => exists d m, old = Some (File d m) /\ omode s = Some m end)
+        by (unfold RV in RVs; intuition).
       destruct (a_bl a) eqn:Ebl; try (eexists; eexists; split; [left; reflexivity|left; reflexivity]);
       (destruct (a_ver a) eqn:Evr; try (eexists; eexists; split; [left; reflexivity|left; reflexivity]);
        cbn [den] in Hbl, Hvr;
        (destruct (e_pipe E (bl s)) as [d|] eqn:Ep;
         [ eexists; eexists; split; [left; reflexivity|right; split; [|reflexivity]]
         | eexists; eexists; split; [right; left; reflexivity|right; split; [|reflexivity]] ];
-        (split; [exact RFs|]); unfold RV in *; cbn; rewrite ?Epp, ?Ebl, ?Evr, ?Ep in *; cbn [den];
-        repeat split; try tauto; try discriminate; try congruence;
-        try (intros _; eexists; reflexivity); try (rewrite <- Hbl; symmetry; exact Ep))).
+        (split; [norm; absn; rw_abs; exact RFs|]); unfold RV; norm; absn; rewrite ?Ebl, ?Evr; cbn [den];
+        destruct Hrest as (Q1 & Q2 & Q3 & Q4 & Q5);
+        (split; [exact Q1|split; [exact Q2|split; [exact Q3|split; [exact Q4|split; [exact Q5|]]]]]);
+        (split; [exact Hbl|split; [exact Hvr|]]);
+        (split; [try discriminate; intros _; eexists; reflexivity|]);
+        (split; [try discriminate; intros _; reflexivity|]);
+        (split; [discriminate|rewrite Hbl in Ep; symmetry; exact Ep]))).
   - (* SValidate *)
     destruct (validate_sound (e_nval E) s a R) as [R' Hc].
     destruct Hc as [Hc|[[Hc Hx]|[Hc Hx]]]; rewrite Hc.
@@ -620,13 +628,13 @@ Proof.
     + exists a, ARCrash. split; [|right; split; [exact R'|reflexivity]].
       right. apply in_or_app. right. unfold crashish in Hx. rewrite Hx. left; reflexivity.
   - (* SSeq *)
-    destruct (IHp1 cur s a R) as (a1 & ar1 & Hi & Hr).
+    destruct (IH p1 cur s a R) as (a1 & ar1 & Hi & Hr).
     destruct (exec H E p1 cur s) as [s1 r1]. cbn [fst snd] in *.
     destruct Hr as [Htop|[R1 Hr]].
     + destruct ar1; try (eapply Sound_of_top; [apply in_flat_map; eexists; split; [exact Hi|left; reflexivity]|exact Htop]).
       eapply Sound_of_top; [apply in_flat_map; eexists; split; [exact Hi|]|exact Htop]. cbn. rewrite (aexec_top _ _ _ Htop). left; reflexivity.
     + destruct r1; cbn [abs_res] in Hr; subst ar1.
-      * destruct (IHp2 cur s1 a1 R1) as (a2 & ar2 & Hi2 & Hr2).
+      * destruct (IH p2 cur s1 a1 R1) as (a2 & ar2 & Hi2 & Hr2).
         exists a2, ar2. split; [|exact Hr2]. apply in_flat_map. eexists; split; [exact Hi|exact Hi2].
       * eexists; eexists; split; [apply in_flat_map; eexists; split; [exact Hi|left; reflexivity]|right; split; [exact R1|reflexivity]].
       * eexists; eexists; split; [apply in_flat_map; eexists; split; [exact Hi|left; reflexivity]|right; split; [exact R1|reflexivity]].
@@ -636,21 +644,83 @@ Proof.
     destruct (eval_cond H E c s) as [[s1 r1] v1]. cbn [fst snd] in *.
     destruct Hr as [Htop|(R1 & Hr & Hb)].
     + destruct ar1; try (eapply Sound_of_top; [apply in_flat_map; eexists; split; [exact Hi|left; reflexivity]|exact Htop]).
-      eapply Sound_of_top; [apply in_flat_map; eexists; split; [exact Hi|]|exact Htop]. cbn.
-      destruct b1; rewrite (aexec_top _ _ _ Htop); left; reflexivity.
+      destruct b1; (eapply Sound_of_top; [apply in_flat_map; eexists; split; [exact Hi|]|exact Htop]); cbn;
+        rewrite (aexec_top _ _ _ Htop); left; reflexivity.
     + destruct r1; cbn [abs_res] in Hr; subst ar1.
       * specialize (Hb eq_refl). subst b1. destruct v1.
-        -- destruct (IHp1 cur s1 a1 R1) as (a2 & ar2 & Hi2 & Hr2).
+        -- destruct (IH p1 cur s1 a1 R1) as (a2 & ar2 & Hi2 & Hr2).
            exists a2, ar2. split; [|exact Hr2]. apply in_flat_map. eexists; split; [exact Hi|exact Hi2].
-        -- destruct (IHp2 cur s1 a1 R1) as (a2 & ar2 & Hi2 & Hr2).
+        -- destruct (IH p2 cur s1 a1 R1) as (a2 & ar2 & Hi2 & Hr2).
            exists a2, ar2. split; [|exact Hr2]. apply in_flat_map. eexists; split; [exact Hi|exact Hi2].
       * eexists; eexists; split; [apply in_flat_map; eexists; split; [exact Hi|left; reflexivity]|right; split; [exact R1|reflexivity]].
       * eexists; eexists; split; [apply in_flat_map; eexists; split; [exact Hi|left; reflexivity]|right; split; [exact R1|reflexivity]].
       * eexists; eexists; split; [apply in_flat_map; eexists; split; [exact Hi|left; reflexivity]|right; split; [exact R1|reflexivity]].
-  - (* STry *) admit_placeholder.
-  - (* SWith *) admit_placeholder.
+  - (* STry *)
+    destruct (IH p cur s a R) as (a1 & ar1 & Hi & Hr).
+    destruct (exec H E p cur s) as [s1 r1]. cbn [fst snd] in *.
+    destruct Hr as [Htop|[R1 Hr]].
+    + destruct ar1; try (eapply Sound_of_top; [apply in_flat_map; eexists; split; [exact Hi|left; reflexivity]|exact Htop]).
+      destruct hperm as [h|], perm, hexc as [h'|];
+        (eapply Sound_of_top; [apply in_flat_map; eexists; split; [exact Hi|]|exact Htop]); cbn;
+        rewrite ?(aexec_top _ _ _ Htop); left; reflexivity.
+    + destruct r1; cbn [abs_res] in Hr; subst ar1;
+        try (eexists; eexists; split; [apply in_flat_map; eexists; split; [exact Hi|left; reflexivity]|right; split; [exact R1|reflexivity]]).
+      destruct hperm as [h|]; [destruct (is_perm e) eqn:Ep|]; [| destruct hexc as [h'|] | destruct hexc as [h'|]].
+      * destruct (IH h e s1 a1 R1) as (a2 & ar2 & Hi2 & Hr2). rewrite Ep in Hi2.
+        exists a2, ar2. split; [|exact Hr2]. apply in_flat_map. eexists; split; [exact Hi|]. cbn. exact Hi2.
+      * destruct (IH h' e s1 a1 R1) as (a2 & ar2 & Hi2 & Hr2). rewrite Ep in Hi2.
+        exists a2, ar2. split; [|exact Hr2]. apply in_flat_map. eexists; split; [exact Hi|]. cbn. exact Hi2.
+      * eexists; eexists; split; [apply in_flat_map; eexists; split; [exact Hi|left; reflexivity]|right; split; [exact R1|cbn; rewrite Ep; reflexivity]].
+      * destruct (IH h' e s1 a1 R1) as (a2 & ar2 & Hi2 & Hr2).
+        exists a2, ar2. split; [|exact Hr2]. apply in_flat_map. eexists; split; [exact Hi|]. cbn. exact Hi2.
+      * eexists; eexists; split; [apply in_flat_map; eexists; split; [exact Hi|left; reflexivity]|right; split; [exact R1|reflexivity]].
+  - (* SWith *)
+    destruct (exec_op_sound' (fst (with_ops k)) s a R) as (a1 & ar1 & Hi1 & Hr1).
+    destruct (exec_op E (fst (with_ops k)) s) as [s1 r1]. cbn [fst snd] in *.
+    destruct Hr1 as [Htop|[R1 Hr1]].
+    + destruct ar1; try (eapply Sound_of_top; [apply in_flat_map; eexists; split; [exact Hi1|left; reflexivity]|exact Htop]).
+      eapply Sound_of_top; [apply in_flat_map; eexists; split; [exact Hi1|]|exact Htop]. cbn.
+      rewrite (aexec_top _ _ _ Htop). cbn. unfold aexec_op. rewrite Htop. cbn. left; reflexivity.
+    + destruct r1; cbn [abs_res] in Hr1; subst ar1;
+        try (eexists; eexists; split; [apply in_flat_map; eexists; split; [exact Hi1|left; reflexivity]|right; split; [exact R1|reflexivity]]).
+      destruct (IH p cur s1 a1 R1) as (a2 & ar2 & Hi2 & Hr2).
+      destruct (exec H E p cur s1) as [s2 r2]. cbn [fst snd] in *.
+      destruct Hr2 as [Htop|[R2 Hr2]].
+      * (* body went to top *)
+        destruct ar2;
+          (eapply Sound_of_top; [apply in_flat_map; eexists; split; [exact Hi1|]; cbn; apply in_flat_map; eexists; split; [exact Hi2|]|exact Htop]);
+          cbn; unfold aexec_op; rewrite ?Htop; cbn; left; reflexivity.
+      * destruct (exec_op_sound' (snd (with_ops k)) s2 a2 R2) as (a3 & ar3 & Hi3 & Hr3).
+        destruct r2; cbn [abs_res] in Hr2; subst ar2.
+        -- (* body normal *)
+           destruct (exec_op E (snd (with_ops k)) s2) as [s3 r3]. cbn [fst snd] in *.
+           destruct Hr3 as [Htop|[R3 Hr3]].
+           ++ destruct ar3; (eapply Sound_of_top; [apply in_flat_map; eexists; split; [exact Hi1|]; cbn; apply in_flat_map; eexists; split; [exact Hi2|];
+                cbn; apply in_map_iff; eexists; split; [|exact Hi3]; reflexivity|exact Htop]).
+           ++ destruct r3; cbn [abs_res] in Hr3; subst ar3;
+                (eexists; eexists; split; [apply in_flat_map; eexists; split; [exact Hi1|]; cbn; apply in_flat_map; eexists; split; [exact Hi2|];
+                  cbn; apply in_map_iff; eexists; split; [|exact Hi3]; reflexivity|right; split; [exact R3|reflexivity]]).
+        -- (* body raised *)
+           destruct (exec_op E (snd (with_ops k)) s2) as [s3 r3]. cbn [fst snd] in *.
+           destruct Hr3 as [Htop|[R3 Hr3]].
+           ++ destruct ar3; (eapply Sound_of_top; [apply in_flat_map; eexists; split; [exact Hi1|]; cbn; apply in_flat_map; eexists; split; [exact Hi2|];
+                cbn; apply in_map_iff; eexists; split; [|exact Hi3]; reflexivity|exact Htop]).
+           ++ destruct r3; cbn [abs_res] in Hr3; subst ar3;
+                (eexists; eexists; split; [apply in_flat_map; eexists; split; [exact Hi1|]; cbn; apply in_flat_map; eexists; split; [exact Hi2|];
+                  cbn; apply in_map_iff; eexists; split; [|exact Hi3]; reflexivity|right; split; [exact R3|reflexivity]]).
+        -- (* body returned *)
+           destruct (exec_op E (snd (with_ops k)) s2) as [s3 r3]. cbn [fst snd] in *.
+           destruct Hr3 as [Htop|[R3 Hr3]].
+           ++ destruct ar3; (eapply Sound_of_top; [apply in_flat_map; eexists; split; [exact Hi1|]; cbn; apply in_flat_map; eexists; split; [exact Hi2|];
+                cbn; apply in_map_iff; eexists; split; [|exact Hi3]; reflexivity|exact Htop]).
+           ++ destruct r3; cbn [abs_res] in Hr3; subst ar3;
+                (eexists; eexists; split; [apply in_flat_map; eexists; split; [exact Hi1|]; cbn; apply in_flat_map; eexists; split; [exact Hi2|];
+                  cbn; apply in_map_iff; eexists; split; [|exact Hi3]; reflexivity|right; split; [exact R3|reflexivity]]).
+        -- (* body crashed *)
+           eexists; eexists; split; [apply in_flat_map; eexists; split; [exact Hi1|]; cbn; apply in_flat_map; eexists; split; [exact Hi2|]; left; reflexivity|
+             right; split; [exact R2|reflexivity]].
   - (* SRaise *) exists a, (ARExn (is_perm cur)). split; [left; reflexivity|right; split; [exact R|reflexivity]].
   - (* SReturn *) exists a, (ARRet r). split; [left; reflexivity|right; split; [exact R|reflexivity]].
-Abort.
+Qed.
 
 End Sound.
